@@ -164,7 +164,8 @@ def check_state(scn, st, corrupt=False):
 
 def canaries():
     from ..explore import Chooser
-    st = build_n(3)(Chooser((0, 1)))
+    from ..explore import PresetChooser
+    st = build_n(3)(PresetChooser({'n1': 1}))
     return [('c12-baseline', check_state('cells3', st)['ok']),
             ('c12-wrong-expectation-detected', not check_state('cells3', st, corrupt=True)['ok'])]
 
